@@ -181,7 +181,11 @@ def main(chk, replay=None):
         cases, gen_states = cases_from_tlc(t, data_text, lists)
     # 3. the real server: every permutation of every directory, then every child by exact selector
     jobs = [(c, dl.permutations([k["name"] for k in c["kids"]]), "all") for c in cases]
-    results = dl.pool_map(_job, jobs, _init_worker)
+    dl.new_root_base()
+    try:
+        results = dl.pool_map(_job, jobs, _init_worker)
+    finally:
+        dl.drop_root_base()
     traces = []
     for (c, orders, _m), (events, extras) in zip(jobs, results):
         d = {k: c[k] for k in ("sb", "handler", "ign", "sniff", "kids")}
